@@ -1,13 +1,13 @@
-SPECIFICATION Spec
+SPECIFICATION SpecL
 CONSTANTS
   QDen = 100
   CDen = 10
   ConnInHealthy = TRUE
   OverrideEligible = TRUE
   N = 2
-  Recs <- ScoreRecsFull
+  Recs <- ScoreRecsMid
   Cfgs <- ScoreCfgs
   Kinds <- PlainKind
   Export = TRUE
-INVARIANTS C03_NoBlackout C03_LastUsableNeverGated C04_ChoiceEligible C04_RoutedEligible C10_ClassicIsReference C11_Stable C11_LeaveOnlyIf C11_CapNeverChosen C12_GuardOffIsBaseline Emit
+INVARIANTS L_C03_NoBlackout L_C03_LastUsableNeverGated L_C04_ChoiceEligible L_C04_RoutedEligible L_C10_ClassicIsReference L_C11_Stable L_C11_LeaveOnlyIf L_C11_CapNeverChosen L_C12_GuardOffIsBaseline L_Emit
 CHECK_DEADLOCK FALSE
